@@ -104,6 +104,7 @@ type ContractSet struct {
 	Groups map[string][]*TypeExpr // named groups of heap types: heaps NAME = T1, T2, ...
 	Ghosts []string               // global boolean ghost variables: ghost NAME bool
 	CallbackGhosts map[string]bool // ... declared `callback`
+	CallbackFalse  map[string]bool // ... declared `callback-false` (subset of CallbackGhosts)
 }
 
 var kwRe = regexp.MustCompile(`^(func|extern|fun|ofun|heaps|ghost|axiom|lemma|aspect|requires|ensures|modifies|decreases|loop|pure|fresh|havocs|maypanic|panics|inline|assumed|props|noframe|uses|trusted_ensures|callsite|clobbers)\b`)
@@ -201,8 +202,8 @@ func (cs *ContractSet) load(path, pkgPath string) error {
 			cur = fc
 		case "ghost":
 			f := strings.Fields(it.text)
-			if !(len(f) == 2 || (len(f) == 3 && f[2] == "callback")) || f[1] != "bool" {
-				return fail(it, "ghost NAME bool [callback]")
+			if !(len(f) == 2 || (len(f) == 3 && (f[2] == "callback" || f[2] == "callback-false"))) || f[1] != "bool" {
+				return fail(it, "ghost NAME bool [callback|callback-false]")
 			}
 			cs.Ghosts = append(cs.Ghosts, f[0])
 			if len(f) == 3 {
@@ -212,6 +213,13 @@ func (cs *ContractSet) load(path, pkgPath string) error {
 					cs.CallbackGhosts = map[string]bool{}
 				}
 				cs.CallbackGhosts[f[0]] = true
+				if f[2] == "callback-false" {
+					// becomes true when a call through an unknown function value with a single bool result answers false
+					if cs.CallbackFalse == nil {
+						cs.CallbackFalse = map[string]bool{}
+					}
+					cs.CallbackFalse[f[0]] = true
+				}
 			}
 			cur = nil
 		case "heaps":
